@@ -551,6 +551,14 @@ def explain_rand(ctx, d, incs, res, f, pr, st, in_skipped, other_err):
                 for red in reversed(E.literal_reductions(n)):
                     extra.append((len(extra), i, "red", red))
             else:
+                # operands replaced by the plain literals of their values: does the operator itself fail?
+                vals = n
+                for ci, ch in enumerate(E.children(n)):
+                    v = E.try_eval(ch)
+                    if v is not None:
+                        vals = replace_at(vals, [SLOTS[n[0]][ci]], plain(v[0]))
+                if vals != n:
+                    extra.append((len(extra), i, "values", vals))
                 paths = [p for p, lf in leaves(n) if lf[0] == "lit" and plain(lf[2]) != lf]
                 if paths:
                     allp = n
@@ -573,11 +581,18 @@ def explain_rand(ctx, d, incs, res, f, pr, st, in_skipped, other_err):
             else:
                 mine = [(j, tag, r) for j, ii, tag, r in extra if ii == i]
                 ap = [j for j, tag, r in mine if tag == "allplain"]
-                if ap and not failing(ap[0]):
+                vv = [(j, r) for j, tag, r in mine if tag == "values"]
+                if vv and failing(vv[0][0]):
+                    # the operator fails on plain values: operands do not matter
+                    sig = fold(E.root_sig(n))
+                    n, o = vv[0][1], outD[vv[0][0]]
+                elif ap and not failing(ap[0]):
                     # fine with plain literals: a literal that is fine on its own breaks its context
-                    ess = [node_at(minimal[i][1], tag[1]) for j, tag, r in mine if tag != "allplain" and not failing(j)]
+                    ess = [node_at(minimal[i][1], tag[1]) for j, tag, r in mine
+                           if isinstance(tag, tuple) and not failing(j)]
                     lf = ess[0] if ess else None
                     sig = "literal-in-context=" + (incontext_sig(lf) if lf else "several")
+                    o = "wrong"          # however it ends (wrong group, division by zero, ...): a mis-read literal
             if sig is None and n[0] in ("un", "bin", "cond", "par"):
                 ks = sorted({"ref-" + ch[1] for ch in E.children(n) if ch[0] == "ref"})
                 sig = fold(E.root_sig(n)) + (":operand=" + "+".join(ks) if ks else "")
@@ -613,10 +628,13 @@ def explain_rand(ctx, d, incs, res, f, pr, st, in_skipped, other_err):
         detail=pr.pf.err[-600:], rc=pr.pf.rc)
 
 
+SLOTS = {"un": [2], "cast": [3], "par": [1], "bin": [2, 3], "cond": [1, 2, 3]}
+
+
 def leaves(n, path=()):
     if n[0] in ("lit", "ref"):
         yield path, n
-    slots = {"un": [2], "cast": [3], "par": [1], "bin": [2, 3], "cond": [1, 2, 3]}.get(n[0], [])
+    slots = SLOTS.get(n[0], [])
     for sl in slots:
         for x in leaves(n[sl], path + (sl,)):
             yield x
